@@ -393,7 +393,7 @@ def pathlike_deserializer(value):
 
 
 register_type(os.PathLike, str, pathlike_deserializer)
-register_type(complex)
+register_type(complex, deserializer_exceptions=(ValueError, TypeError, AttributeError, OverflowError))
 
 
 def decimal_deserializer(value):
